@@ -136,6 +136,7 @@ def _retry(job):
         ctx.sig("retry delays=%s start=%s" % (job["delays"], job["start"]))
         res = []
         consumer.start({"num": 1000, "earliest": OFFSET_EARLIEST, "committed": OFFSET_COMMITTED}[job["start"]]).addBoth(res.append)
+        small_left = [1]
         exp_delay = float(init)  # oracle's copy of the back-off state
         cf = 0  # consecutive failed attempts
         for step in range(job["P"]):
@@ -145,8 +146,24 @@ def _retry(job):
                 ctx.check(False, "always-a-request-or-timer", "no request outstanding and none scheduled")
                 break
             p = client.pending[0]
-            k = ctx.choose("outcome", 4)
+            k = ctx.choose("outcome", 5 if (p.kind == "fetch" and small_left[0] > 0) else 4)
             ctx.log("req", p.kind, "outcome", k)
+            if k == 4:
+                # a successful fetch whose first message does not fit the buffer: the consumer enlarges the buffer and fetches
+                # again at once -- the request succeeded, so the retry delay and the attempt count start afresh
+                small_left[0] -= 1
+                cf = 0
+                exp_delay = float(init)
+
+                def gen_small():
+                    raise ConsumerFetchSizeTooSmall()
+                    yield  # pragma: no cover
+
+                client.resolve(p, [FetchResponse(TOPIC, PART, 0, 0, gen_small())])
+                t = next_timer(clock)
+                ctx.check(t is not None and t.getTime() - clock.seconds() == 0, "refetch-immediately-after-success", "after a too-small answer the next fetch is not immediate")
+                fire_next_timer(clock)
+                continue
             if k == 3:  # success
                 cf = 0
                 exp_delay = float(init)
